@@ -11,4 +11,5 @@ package csv
 func CSVDatabase$1
   props C08 C09 C10
   refines parser.StopOnErr
+  modifies *
 @*/
